@@ -241,7 +241,32 @@ def run_group(ctx, tag, cases, coqfn, checkfn, tol, shard, describe):
         c['_out'] = r['res']
         exprs.append((c['id'], coqfn(c, r['res'])))
     results = ctx.coq_cases(tag, HEADER, exprs, '(%s %s)' % (checkfn, q(tol)), 'rel %.0e of max|phi|' % float(tol), shard=shard, timeout=1800, kind=tag)
+    if checkfn == 'kcheck':
+        pivot_hypothesis(ctx, tag, cases, exprs, shard)
     return results
+
+def pivot_hypothesis(ctx, tag, cases, exprs, shard):
+    """The solve/uniqueness theorems assume non-vanishing Thomas pivots; Proofs/Pivots.v proves them positive under the
+    cell-Peclet condition.  Evaluate both on the model for every line of every generated kernel case: the hypothesis
+    must hold on everything generated (otherwise the correspondence says nothing there), and the share of lines
+    meeting the Peclet condition is reported (non-vacuity of the proved sufficient condition)."""
+    res = ctx.coq_cases(tag + 'piv', HEADER, exprs, 'kpiv', 'n/a', shard=shard * 2, timeout=1800, kind=tag + 'piv', record_err=False)
+    byid = {c['id']: c for c in cases}
+    nlines = npec = 0
+    for cid, (ok, cnt) in res.items():
+        c = byid[cid]
+        n = 1
+        for s_ in c['shape']:
+            n *= s_
+        nlines += n // c['shape'][c['k']]
+        npec += cnt // c['shape'][c['k']]
+        ctx.obligation('%s case %d: model pivots non-zero on every line, positive on every line meeting the cell-Peclet condition' % (tag, cid), ok, 'hypothesis',
+                       '' if ok else 'a Thomas pivot of the model vanishes or is non-positive under the Peclet condition: theorem C02_pivots_positive_under_peclet_condition contradicted or hypothesis `nonzero` unmet')
+        if not ok:
+            ctx.violation('%s: the implicit system of a generated line has a vanishing pivot (or a non-positive one under the cell-Peclet condition): the scheme is not uniquely solvable there' % tag,
+                          data={'case': {k: v for k, v in c.items() if not k.startswith('_')}}, no_input=True, broken='hypothesis nonzero (all_pivots (line_rows ...)) of C02_step_solves_scheme')
+    ctx.stats['lines_checked_for_pivots_' + tag] = nlines
+    ctx.stats['lines_meeting_cell_peclet_condition_' + tag] = npec
 
 def run(ctx):
     ctx.rule = ('kernel cases = (dimension d, swept axis k, unequal shape, per-axis random/uniform/exponential/quadratic dyadic grids with '
